@@ -34,6 +34,11 @@ func scenC13(r *Run, job *Job) {
 		exts = append(exts, ExtCfg{Name: fmt.Sprintf("e%d", i+1), Subs: extSubSets[t.Draw(len(extSubSets))]})
 	}
 	nInt := []int{0, 1, 2, 3, 11}[t.Weighted(2, 3, 3, 1, 1)]
+	if nInt == 11 && t.Chance(1, 2) {
+		// one of the registrations near the limit is descheduled inside the registration service while the others
+		// proceed
+		r.AddHold("registrationServiceImpl).CreateInternalAgent", 7+t.Draw(5), 1+t.Draw(3))
+	}
 	fn := []string{"", "my-func"}[t.Draw(2)]
 	handler := []string{"", "app.handler"}[t.Draw(2)]
 	timeoutSec := 3
@@ -340,7 +345,16 @@ func c13Judge(r *Run, w *World, e *Engine, calls []*c13Call, exts []ExtCfg, fn, 
 						continue
 					}
 				} else {
-					if launched+internalAccepted >= 10 {
+					if c.EndStep > c.StartStep {
+						// it was descheduled in the middle: where it is ordered among the others is not observable; what
+						// counts is the total (checked below)
+						if c.Status != 200 {
+							continue
+						}
+					} else if launched+internalAccepted >= 10 && r.holdEverFired() && rf != nil && c.Status == 403 && errType(c) == "Extension.InvalidExtensionState" {
+						// both refusals apply (limit reached, name taken) and a descheduled registration blurred the order
+						continue
+					} else if launched+internalAccepted >= 10 {
 						expect403(cc, "Extension.TooManyExtensions", "ten extensions exist")
 						r.Probe("eleventh-extension")
 						continue
@@ -404,6 +418,14 @@ func c13Judge(r *Run, w *World, e *Engine, calls []*c13Call, exts []ExtCfg, fn, 
 						}
 						r.Check(reported && c.EndStep > c.StartStep && c.Status == 403, "C13.next-refused", "%s next in state %s answered %d %s", cc.actor.Who, rf.state, c.Status, summarize(c.Body))
 					}
+					if c.Done && c.Err == nil && c.Status == 200 && c.EndStep > c.StartStep {
+						// a parked poll that is answered with an event: the extension must not have reported its exit meanwhile
+						for _, o := range calls {
+							if o.kind == "exiterror" && o.c.Done && o.c.Err == nil && o.c.Status == 202 && o.c.ReqHdr["Lambda-Extension-Identifier"] == rf.id && o.c.StartStep > c.StartStep && o.c.EndStep < c.EndStep {
+								r.Failf("C13.exit-error-not-final", "%s: its parked next (issued at step %d) was answered %d with an event at step %d although its exit/error had been accepted at step %d", cc.actor.Who, c.StartStep, c.Status, c.EndStep, o.c.EndStep)
+							}
+						}
+					}
 					if c.Done && c.EndStep == c.StartStep {
 						rf.state = "running"
 					} else {
@@ -439,6 +461,8 @@ func c13Judge(r *Run, w *World, e *Engine, calls []*c13Call, exts []ExtCfg, fn, 
 			}
 		}
 	}
+	// at most ten extensions exist
+	r.Check(launched+internalAccepted <= 10, "C13.too-many-extensions", "%d external extensions were launched and %d internal registrations accepted: more than ten extensions exist", launched, internalAccepted)
 	// ---- the barriers themselves: only accepted calls move them ------------------------------------------
 	// (a) the runtime of the first generation is started only once as many external registrations were
 	// accepted as external extensions were launched; refused registrations do not count
